@@ -62,10 +62,19 @@ Definition count_ev (e : event) (l : list event) : nat :=
 Definition events_same (a b : list event) : bool :=
   (length a =? length b) && forallb (fun e => count_ev e a =? count_ev e b) a.
 
+Definition err1_eqb (a b : err) : bool :=
+  match a, b with
+  | ENotFound, ENotFound => true
+  | ECycle, ECycle => true
+  | ENoGo, ENoGo => true
+  | EFuel, EFuel => true
+  | _, _ => false
+  end.
+
 Definition err_eqb (a b : option err) : bool :=
   match a, b with
   | None, None => true
-  | Some ENotFound, Some ENotFound | Some ECycle, Some ECycle | Some ENoGo, Some ENoGo | Some EFuel, Some EFuel => true
+  | Some x, Some y => err1_eqb x y
   | _, _ => false
   end.
 
@@ -87,8 +96,8 @@ Definition main (d : string) : event := EvMain (pth d).
 (** (id, file mode?, context, entry import path, implementation outcome, reference outcome) *)
 Definition run_case := (N * bool * ctx * path * outcome * outcome)%type.
 Definition run_mis_y (cs : list run_case) : list N :=
-  flat_map (fun '(id, file, c, e, impl, _) =>
+  flat_map (fun x : run_case => let '(id, file, c, e, impl, _) := x in
     if outcome_eqb_y (if file then y_run_file c else y_run_path c e) impl then [] else [id]) cs.
 Definition run_mis_g (cs : list run_case) : list N :=
-  flat_map (fun '(id, file, c, e, _, ref) =>
+  flat_map (fun x : run_case => let '(id, file, c, e, _, ref) := x in
     if outcome_eqb_g (if file then g_run_file c else g_run_path c e) ref then [] else [id]) cs.
